@@ -141,7 +141,7 @@ class StatsLogAdapter(logging.LoggerAdapter):
                 "received_req_counter": stats.received_req_counter.get_count(60),
                 "sent_result_code_range_counters": {
                     r: c.get_count(60)
-                    for r, c in stats.sent_result_code_range_counters.items()
+                    for r, c in list(stats.sent_result_code_range_counters.items())
                 }})
 
         self.debug(f"STATS={json.dumps(peers)}")
@@ -522,9 +522,15 @@ class Node:
         while not _thread.is_stopped:
             if time.time() - interval >= 60:
                 interval = time.time()
-                stats_snapshot = dataclasses.asdict(self.statistics)
-                stats_snapshot["timestamp"] = int(time.time())
-                self.statistics_history.append(stats_snapshot)
+                try:
+                    stats_snapshot = dataclasses.asdict(self.statistics)
+                    stats_snapshot["timestamp"] = int(time.time())
+                    self.statistics_history.append(stats_snapshot)
+                except Exception as e:
+                    # the figures are read while connection and application
+                    # threads update them; a failed sample is skipped
+                    self.logger.warning(
+                        f"failed to collect statistics: {repr(e)}")
 
             time.sleep(2)
 
@@ -675,10 +681,15 @@ class Node:
 
     def _handle_connections(self, _thread: StoppableThread):
         while True:
-            if self.peers_logging:
-                self.stats_logger.log_peers()
-            if self.stats_logging:
-                self.stats_logger.log_stats()
+            try:
+                if self.peers_logging:
+                    self.stats_logger.log_peers()
+                if self.stats_logging:
+                    self.stats_logger.log_stats()
+            except Exception as e:
+                # the figures are read while connection and application
+                # threads update them; logging them must never stop the node
+                self.logger.warning(f"failed to log statistics: {repr(e)}")
 
             if _thread.is_stopped:
                 self.connection_logger.info(
@@ -1204,7 +1215,7 @@ class Node:
             req_per_sec_total_time += math.ceil(sum(stats.processed_req_time_total))
             total_requests_count += len(stats.processed_req_time_total)
 
-            for cmd_name, times in stats.processed_req_time.items():
+            for cmd_name, times in list(stats.processed_req_time.items()):
                 if cmd_name not in req_time:
                     req_time[cmd_name] = 0
                     req_count[cmd_name] = 0
@@ -1220,7 +1231,7 @@ class Node:
                     counter_copy.get_counts(60, 300, 900))
             ]
 
-            for result_code_range, counter in stats.sent_result_code_range_counters.items():
+            for result_code_range, counter in list(stats.sent_result_code_range_counters.items()):
                 counter_copy = deepcopy(counter)
                 sent_res_code_counters.setdefault(result_code_range, [0, 0, 0])
                 sent_res_code_counters[result_code_range] = [
